@@ -303,3 +303,74 @@ pub fn raw_bytes_hex(v: &Value) -> String {
         None => as_vec(v).map(|vs| format!("[{}]", vs.iter().map(raw_bytes_hex).collect::<Vec<_>>().join(","))).unwrap_or_default(),
     }
 }
+
+/// All bytes of a value, leaves in order.
+pub fn flat_bytes(v: &Value) -> Vec<u8> {
+    match as_bytes(v) {
+        Some(b) => b,
+        None => as_vec(v).unwrap_or_default().iter().flat_map(flat_bytes).collect(),
+    }
+}
+
+/// True when every byte of an encoding of `t` is fully used (no padding bits, no one-bit bytes), so that every byte
+/// of a uniformly random value of the type is uniform.
+pub fn all_bytes_full(t: &Type) -> bool {
+    match t {
+        Type::Scalar(st) => *st != BIT,
+        Type::Array(_, st) => *st != BIT || num_elems(t) % 8 == 0,
+        Type::Tuple(ts) => ts.iter().all(|x| all_bytes_full(x)),
+        Type::Vector(_, et) => all_bytes_full(et),
+        Type::NamedTuple(ts) => ts.iter().all(|(_, x)| all_bytes_full(x)),
+    }
+}
+
+/// Shifted-copy detector for two byte strings that should be independent and uniform: is there a shift d such that
+/// x[j] == y[j + d] for at least max(12, overlap / 3) positions? For independent uniform bytes the number of matches at
+/// one shift is Binomial(overlap, 1/256); 12 matches out of 16 have probability < 2e-26, so over every shift, pair and
+/// case of a thorough run the false-alarm probability stays below 1e-10. `same` = x and y are the same string
+/// (autocorrelation; shift 0 is skipped). Returns (shift, overlap, matches).
+pub fn shifted_copy(x: &[u8], y: &[u8], same: bool) -> Option<(i64, usize, usize)> {
+    let (lx, ly) = (x.len() as i64, y.len() as i64);
+    if lx < 16 || ly < 16 {
+        return None;
+    }
+    let lmax = lx.max(ly);
+    let mut shifts: Vec<i64> = vec![];
+    if lmax <= 128 {
+        shifts.extend(-(lmax - 1)..lmax);
+    } else {
+        shifts.extend(-64..=64);
+        let mut d = 80;
+        while d < lmax && d <= 4096 {
+            shifts.push(d);
+            shifts.push(-d);
+            d += 16;
+        }
+        for k in 2..=4 {
+            shifts.push(lmax / k);
+            shifts.push(-(lmax / k));
+        }
+    }
+    for d in shifts {
+        if same && d == 0 {
+            continue;
+        }
+        // positions j of x with 0 <= j + d < ly
+        let lo = 0.max(-d);
+        let hi = lx.min(ly - d);
+        if hi - lo < 16 {
+            continue;
+        }
+        let m = (hi - lo) as usize;
+        let mut matches = 0usize;
+        for j in lo..hi {
+            if x[j as usize] == y[(j + d) as usize] {
+                matches += 1;
+            }
+        }
+        if matches >= 12.max(m / 3) {
+            return Some((d, m, matches));
+        }
+    }
+    None
+}
